@@ -193,7 +193,14 @@ func c01Case(c *Ctx) *Result {
 		res.Verdict, res.Detail = Inconclusive, "client: "+err.Error()
 		return res
 	}
-	rs, timedOut := runTransfer(env, cm, plans, XferOpt{AllKeys: keys, MaxLen: int64(budget), Watchdog: 1200 * time.Second})
+	// now and then the application opens further proxy connections and drops
+	// them unused
+	unused := 0
+	if c.Idx%5 == 3 {
+		unused = 1 + c.Idx%2
+	}
+	params["unused_connections"] = unused
+	rs, timedOut := runTransfer(env, cm, plans, XferOpt{AllKeys: keys, MaxLen: int64(budget), Watchdog: 1200 * time.Second, Unused: unused})
 	rep := analyzeTCP(env, WireOpts{Users: env.Cfg.Users, Pat: [2]*patT{env.PatCE, env.PatSE}})
 	compareStreams(rep, rs, plans)
 	res.Obs = rep.Obs
